@@ -467,9 +467,36 @@ theorem frame_inv {α : Type} (c : Cons) (hm : c.mode = .der) (cls num : Nat) (h
           have hdata : ((St d lim).adv (k + kl)).data = d.drop (k + kl) := rfl
           have hlimit : ((St d lim).adv (k + kl)).limit = lim.map (· - (k + kl)) := rfl
           rw [hdata, hlimit] at h
-          by_cases hover : (match lim.map (· - (k + kl)) with | some l => decide (len > l) | none => false) = true
-          · trace_state; simp only [hover, if_true] at h; cases h
-          simp only [hover, Bool.false_eq_true, if_false] at h
+          have hover : ∀ l, lim = some l → ¬ len > l - (k + kl) := by
+            intro l hl' hgt
+            subst hl'
+            simp only [Option.map, hgt, decide_true, if_true] at h
+            cases h
+          have hnover : (if (match lim.map (· - (k + kl)) with | some l => decide (len > l) | none => false) = true
+              then (Except.error Err.content : Res ((Option α × Cons) × G0)) else Except.error Err.content) =
+              Except.error Err.content := by split <;> rfl
+          replace h : (if (id.constructed && Mode.der == Mode.cer) = true then Except.error Err.content
+            else
+              match
+                runG0
+                  (op (C12.tagOf id.cls id.num)
+                    (if id.constructed = true then Content.cons { state := CState.definite, mode := Mode.der }
+                    else Content.prim Mode.der))
+                  (St (List.drop (k + kl) d) (some len)) with
+              | Except.error e => Except.error e
+              | Except.ok ((res, content'), g3) =>
+                match runG0 content'.exhausted g3 with
+                | Except.error e => Except.error e
+                | Except.ok (_, g4) =>
+                  Except.ok
+                    ((some res, c),
+                      ({ g4 with limit := Option.map (fun x => x - len) (Option.map (fun x => x - (k + kl)) lim) } : G0))) =
+              Except.ok ((some res, c'), g') := by
+            cases lim with
+            | none => simpa only [Option.map, Bool.false_eq_true, if_false] using h
+            | some l =>
+              have := hover l rfl
+              simpa only [Option.map, this, decide_false, Bool.false_eq_true, if_false] using h
           have hcer : (id.constructed && Mode.der == Mode.cer) = false := by cases id.constructed <;> rfl
           simp only [hcer, Bool.false_eq_true, if_false] at h
           -- relate data and view
@@ -510,7 +537,7 @@ theorem frame_inv {α : Type} (c : Cons) (hm : c.mode = .der) (cls num : Nat) (h
                 have : k + kl ≤ l := by
                   have := view_le_limit (St d (some l)) l rfl
                   omega
-                simp only [Option.map, gt_iff_lt, decide_eq_true_eq] at hover
+                have := hover l rfl
                 omega
               · rw [← hg', hhl]
                 cases lim <;> simp [Nat.sub_sub]
